@@ -142,4 +142,15 @@ CHECKS = {
         "note": TLCNOTE + "Integer ordinates only (exact arithmetic).",
         "technique": "TLA+ interval algebra (TLC exhaustive laws) + TLC-enumerated envelope pairs/triples replayed + TLC trace validation",
     },
+    "C16": {
+        "text": "StructOps.tla defines every structure-preserving operation as a function on abstract trees whose vertices carry opaque "
+                "X/Y/Z/M tokens (Force*: dropped dimensions disappear, added ones are zero, XY never changes; constructors reduce mixed "
+                "members to the common type and force them; Reverse / TransformXY / AsMulti / Dump / round trips keep each vertex's "
+                "payload with it); TLC checks CtypeUniform, the Force laws and Reverse involution on every state reachable by bounded "
+                "operation sequences, emits every transition as a one-step history for the real library, and validates recorded "
+                "histories (1..12 real operations on real values, each result read back through every accessor, Dump, DumpCoordinates "
+                "and the XY-only operations) step by step against its own abstract value.",
+        "note": TLCNOTE + "Model bound: 48 start geometries, op sequences <= 2 (quick) / 3 (thorough); histories up to 12 operations.",
+        "technique": "TLA+ abstract tree transition function (TLC exhaustive invariants) + TLC-enumerated transitions replayed + TLC trace validation of operation histories",
+    },
 }
